@@ -2,6 +2,9 @@
   C19: the two property statements whose proofs combine several lemmas.
 -/
 import CspuzModel.Proofs.C19Pattern
+import Mathlib.Data.Rat.Defs
+import Mathlib.Algebra.Order.Field.Basic
+import Mathlib.Tactic.Positivity
 namespace Cspuz.Gen
 open Cspuz
 
@@ -40,5 +43,12 @@ theorem array_full {V : Type} [DecidableEq V] (fuel : Nat) (c : ArrayCfg V) (g :
     have hfun : cellI g' = writes u (cellI g) := by funext y x; exact hcell y x
     rw [noAdj_iff, hfun]
     exact shape_noAdj c g u (hvs u hu) hD hsym hna
+
+/-- The value `n / 2³²` of `random()` lies in `[0, 1)`. -/
+theorem ratio_range (n : Nat) (h : n < 2 ^ 32) : (0 : ℚ) ≤ (n : ℚ) / 2 ^ 32 ∧ (n : ℚ) / 2 ^ 32 < 1 := by
+  constructor
+  · positivity
+  · rw [div_lt_one (by positivity)]
+    exact_mod_cast h
 
 end Cspuz.Gen
